@@ -159,7 +159,8 @@ class World:
         feats = (extra_features(self) if extra_features else []) + [Rec(self.sink), RecX(self.sinkx)]
         self.env = TradingEnv(action_space=space, state=feats, transmitter=tr,
                               latency=float(cfg["lat"] * tick), steps_delay=cfg["delay"],
-                              episode_length=(cfg["eplen"] or None), initial_cash=1000.0)
+                              episode_length=(cfg["eplen"] or None), initial_cash=1000.0,
+                              sampling_span=(3 if (cfg["eplen"] and len(cfg["events"]) % 2 == 0) else None))
         self.sink.env = self.env
         self.sinkx.env = self.env
         self.draw = None
